@@ -249,6 +249,31 @@ def planar(j):
                     check(j, ok, "SO2.theta", "theta=%g;%s" % (th, unit), "rebuild-differs", {"theta": th, "got": float(a)}, cid)
 
 
+def wide_angle_constructors(j):
+    """the axis-angle and axis-rotation constructors for angles BEYOND a half turn (up to several turns, both signs,
+    both units): rotation by theta about the normalised axis, in every class"""
+    import ctorlib
+    import spatialmath.base as b
+    from spatialmath import SO3, SE3, UnitQuaternion
+    for th in (-9.0, -6.5, -4.0, -3.5, 3.3, 3.5, 4.0, 6.0, 6.5, 9.0, 13.0):
+        for v in ([1, 0, 0], [0, 0, 2], [1, -2, 2], [0.3, 0.4, 1.2]):
+            E = ctorlib._axis_rot(v, th)
+            for unit in ("rad", "deg"):
+                a = math.degrees(th) if unit == "deg" else th
+                routes = {"base.angvec2r": lambda: b.angvec2r(a, v, unit=unit), "SO3.AngVec": lambda: SO3.AngVec(a, v, unit=unit).R,
+                          "SE3.AngVec": lambda: SE3.AngVec(a, v, unit=unit).R,
+                          "UnitQuaternion.AngVec": lambda: UnitQuaternion.AngVec(a, v, unit=unit).R}
+                if v[1] == 0 and v[2] == 0:
+                    routes.update({"UnitQuaternion.Rx": lambda: UnitQuaternion.Rx(a, unit=unit).R, "SO3.Rx": lambda: SO3.Rx(a, unit=unit).R})
+                for site, fn in routes.items():
+                    feat = "theta-beyond-pi;%s" % unit
+                    cid = (site, "wide-angle", unit)
+                    r = guard(j, site, feat, {"theta": th, "axis": v}, cid, lambda: np.asarray(fn(), dtype=float))
+                    if r is not None:
+                        check(j, r.shape == (3, 3) and float(np.max(np.abs(r - E))) <= TOL, site, feat,
+                              "not-the-rotation-by-theta-about-the-axis", {"theta": th, "axis": v, "unit": unit}, cid)
+
+
 def run(tier):
     j = Judge(PID)
     thorough = tier == "thorough"
@@ -270,6 +295,7 @@ def run(tier):
     lat = j.evaluations
     offsets(j, rng, thorough)
     planar(j)
+    wide_angle_constructors(j)
     cov = {"states": rc.distinct, "transitions": rc.generated, "traces_validated_against_impl": n, "checker_cmd": rc.cmd,
            "lattice_exact": lat, "valuation": j.evaluations - lat,
            "rule": "case = (extraction entry point, order / flip, singular-or-regular class or offset tag, unit)"}
